@@ -243,6 +243,10 @@ def defaults(prog, rep):
                     entry_none = True
                 if base[0] == "sub" and base[1] == fdp and idx == ("const", "weights") and t == NONE:
                     w_none = ("not", ("cmp", "in", ("const", "weights"), base)) in pc
+    for st, nm, t in b.list_values():
+        # the all-None default built by a loop of appends
+        if nm == "fit_descriptions" and ("isnone", fdp) in pcs.of(st) and t[0] == "comp" and t[2] == dflt and t[4] == ("call", G("range"), (("attr", SELF, "n_dim"),), ()):
+            all_none = True
     rep.check(d_ok and all_none, "C09.defaults", f"{q}:none", fn.where(), "no descriptions -> n_dim x {'method': 'mle', 'weights': None}",
               "fit_descriptions=None must become one {'method': 'mle', 'weights': None} per dimension")
     rep.check(entry_none, "C09.defaults", f"{q}:entry", fn.where(), "entry None -> default of that entry",
